@@ -34,10 +34,13 @@ def case_key(c):
     return hashlib.sha1(json.dumps(d, sort_keys=True).encode()).hexdigest()
 
 
-def facts_of(c, reasons):
-    """Trigger fields of a failing case for known-finding matching."""
+def facts_of(c, reasons, exp):
+    """Trigger fields of a failing case for known-finding matching (inputs and the specification's
+    expectation only; `reason` names which comparison failed)."""
     eh_types = sorted({s["type"] for s in c.get("eh", [])})
     return {
+        "exp_www": bool(exp.get("www")),
+        "exp_class": exp.get("class"),
         "entry": c["entry"],
         "find": c["find"]["result"],
         "slash": c["find"]["slash"],
@@ -57,17 +60,9 @@ def judge(work, trace_path, prop, tag=""):
     return v
 
 
-def run(prop, tier, seed, replay=None, gen=None, drv_extra=None, facts=facts_of):
-    verdict = Verdict(prop, tier, seed)
-    work = Work(prop)
-    try:
-        binary = build_driver()
-        if replay:
-            return do_replay(work, verdict, binary, prop, replay, drv_extra)
-
-        design_run(work, verdict, tier == "quick")
-
-        gen = gen or {}
+def produce_paths(gen, drv_extra):
+    """Default producer: PipelineGen paths executed by `verifdrv pipeline`."""
+    def produce(work, binary, tier, seed):
         cases = work.path("cases.ndjson")
         genv = {"VERIF_GEN_OUT": cases}
         genv.update(gen.get(tier, {}))
@@ -75,13 +70,36 @@ def run(prop, tier, seed, replay=None, gen=None, drv_extra=None, facts=facts_of)
                           timeout=3000, heap="12g")
         ngen = sum(1 for _ in open(cases))
         log("generated %d paths in %.1fs" % (ngen, g.wall))
-
         trace = work.path("trace.ndjson")
         args = ["pipeline", "-cases", cases, "-trace", trace, "-seed", seed]
         args += gen.get(tier + "_drv", [])
         args += drv_extra or []
-        out = run_driver(binary, args)
-        log(out.strip())
+        log(run_driver(binary, args).strip())
+        return trace, ngen
+    return produce
+
+
+RULE_PATHS = ("cases = complete paths of the lazy Pipeline automaton enumerated by TLC (family ii, "
+              "reduced alphabet, bounded stage lengths) plus TLC-seeded random paths over the full "
+              "alphabet (family iii), padded and executed on the three assembled services; "
+              "non-trivial = the specification's run is negative or skips at least one step; "
+              "distinct = by full concrete case content")
+
+
+def run(prop, tier, seed, replay=None, gen=None, drv_extra=None, facts=facts_of, design=None, produce=None,
+        rule=RULE_PATHS):
+    verdict = Verdict(prop, tier, seed)
+    work = Work(prop)
+    try:
+        binary = build_driver()
+        if replay:
+            return do_replay(work, verdict, binary, prop, replay, drv_extra)
+
+        with ThreadPoolExecutor(max_workers=2) as ex:
+            d = ex.submit(design or design_run, work, verdict, tier == "quick")
+            pr = ex.submit(produce or produce_paths(gen or {}, drv_extra), work, binary, tier, seed)
+            d.result()
+            trace, ngen = pr.result()
 
         v = judge(work, trace, prop)
         lines = read_ndjson(trace)
@@ -89,19 +107,20 @@ def run(prop, tier, seed, replay=None, gen=None, drv_extra=None, facts=facts_of)
             raise Infra("trace length mismatch: TLC consumed %d of %d" % (v["lines"], len(lines)))
 
         known = load_known(prop)
+        expected = {b["id"]: b["expected"] for b in v["bad"]}
         confirmed = []
         if v["bad"]:
             log("%d cases rejected; re-executing them in isolation" % len(v["bad"]))
             confirmed = reproduce(work, binary, prop, lines, v["bad"], drv_extra)
         nknown = 0
         for c, reasons in confirmed:
-            k = match_known(known, facts(c, reasons))
+            k = match_known(known, facts(c, reasons, expected[c["id"]]))
             if k:
                 verdict.known_finding(k)
                 nknown += 1
             else:
                 path = save_replay(prop, case_key(c)[:12], [c]) if len(verdict.violations) < 20 else "(not saved)"
-                verdict.violation(path, ",".join(reasons) + " " + json.dumps(facts(c, reasons)))
+                verdict.violation(path, ",".join(reasons) + " " + json.dumps(facts(c, reasons, expected[c["id"]])))
 
         selftest = binding_selftest(work, lines, prop)
 
@@ -110,12 +129,8 @@ def run(prop, tier, seed, replay=None, gen=None, drv_extra=None, facts=facts_of)
             "traces_validated_against_impl": len(lines),
             "evaluations": len(lines),
             "distinct_nontrivial": min(distinct, v["nontrivial"]),
-            "rule": "cases = complete paths of the lazy Pipeline automaton enumerated by TLC (family ii, "
-                    "reduced alphabet, bounded stage lengths) plus TLC-seeded random paths over the full "
-                    "alphabet (family iii), padded and executed on the three assembled services; "
-                    "non-trivial = the specification's run is negative or skips at least one step; "
-                    "distinct = by full concrete case content",
-            "generated_paths": ngen,
+            "rule": rule,
+            "generated_by_tlc": ngen,
             "distinct_cases": distinct,
             "nontrivial_cases": v["nontrivial"],
             "rejected_by_tlc": len(v["bad"]),
